@@ -22,7 +22,7 @@ at an iteration `it0 ≡ 0 (mod k)`, `k` iterations perform exactly one optimise
 them, at the window's parameters `s.theta`, on `received (g(θ,b_it0) + … + g(θ,b_{it0+k-1}))`
 (`received` = `div_(k)` when `k > 1`, then the optional clipping), with the learning rate of
 `last_epoch = s.epoch + k - 1`; the accumulator is empty again and the schedule has advanced `k` times. -/
-theorem accumulated_step (ops : Ops P O G B L) (lrAt : Nat → L) (cfg : Cfg) (batch : Nat → B)
+theorem accumulated_step (ops : Ops P O G B L Sc) (lrAt : Nat → L) (cfg : Cfg) (batch : Nat → B)
     (s : St P O G Sc) (it0 : Nat) (hk : 0 < cfg.k) (h0 : it0 % cfg.k = 0) :
     runRange ops lrAt cfg batch s it0 cfg.k =
       stepWith ops lrAt cfg s (windowSum ops batch s.theta it0 cfg.k s.grad) (s.epoch + cfg.k) := by
@@ -33,20 +33,20 @@ theorem accumulated_step (ops : Ops P O G B L) (lrAt : Nat → L) (cfg : Cfg) (b
 ℚ-module, `div_(k)` = multiplication by `1/k`): `(1/k) • Σ_{j<k} ∇loss(θ_window, batch_{it0+j})`,
 clipped when clipping is on. -/
 theorem accumulated_step_is_mean [AddCommGroup G] [Module ℚ G]
-    (grad : P → B → G) (clip : G → G) (opt : L → P → O → G → P × O)
+    (grad : P → B → G) (clip : G → G) (opt : L → P → O → G → P × O) (supd : Sc → Sc)
     (lrAt : Nat → L) (cfg : Cfg) (batch : Nat → B) (s : St P O G Sc) (it0 : Nat)
     (hk : 0 < cfg.k) (h0 : it0 % cfg.k = 0) (hg : s.grad = 0) :
     let mean : G := ((cfg.k : ℚ))⁻¹ • ∑ j ∈ Finset.range cfg.k, grad s.theta (batch (it0 + j))
     let g := if cfg.clipOn then clip mean else mean
-    runRange (moduleOps grad clip opt) lrAt cfg batch s it0 cfg.k =
+    runRange (moduleOps grad clip opt supd : Ops P O G B L Sc) lrAt cfg batch s it0 cfg.k =
       { theta := (opt (lrAt (s.epoch + cfg.k - 1)) s.theta s.ostate g).1,
         ostate := (opt (lrAt (s.epoch + cfg.k - 1)) s.theta s.ostate g).2,
-        grad := 0, epoch := s.epoch + cfg.k, scaler := s.scaler } := by
+        grad := 0, epoch := s.epoch + cfg.k, scaler := supd s.scaler } := by
   intro mean g
-  rw [accumulated_step (moduleOps grad clip opt) lrAt cfg batch s it0 hk h0,
-    windowSum_eq_sum (moduleOps grad clip opt) rfl, hg, zero_add]
-  have hr : received (moduleOps grad clip opt) cfg
-      (∑ j ∈ Finset.range cfg.k, (moduleOps grad clip opt).grad s.theta (batch (it0 + j))) = g := by
+  rw [accumulated_step (moduleOps grad clip opt supd : Ops P O G B L Sc) lrAt cfg batch s it0 hk h0,
+    windowSum_eq_sum (moduleOps grad clip opt supd : Ops P O G B L Sc) rfl, hg, zero_add]
+  have hr : received (moduleOps grad clip opt supd : Ops P O G B L Sc) cfg
+      (∑ j ∈ Finset.range cfg.k, (moduleOps grad clip opt supd : Ops P O G B L Sc).grad s.theta (batch (it0 + j))) = g := by
     by_cases h1 : cfg.k > 1
     · simp [received, h1, moduleOps, g, mean]
     · have : cfg.k = 1 := by omega
@@ -55,20 +55,20 @@ theorem accumulated_step_is_mean [AddCommGroup G] [Module ℚ G]
   rfl
 
 /-- **`k = 1`: every batch produces exactly one step with its own gradient** (no division). -/
-theorem k1_every_batch_one_step (ops : Ops P O G B L) (lrAt : Nat → L) (cfg : Cfg) (hk : cfg.k = 1)
+theorem k1_every_batch_one_step (ops : Ops P O G B L Sc) (lrAt : Nat → L) (cfg : Cfg) (hk : cfg.k = 1)
     (s : St P O G Sc) (it : Nat) (b : B) :
     let g := if cfg.clipOn then ops.clip (ops.add s.grad (ops.grad s.theta b)) else ops.add s.grad (ops.grad s.theta b)
     iter ops lrAt cfg s it b =
       { theta := (ops.opt (lrAt s.epoch) s.theta s.ostate g).1,
         ostate := (ops.opt (lrAt s.epoch) s.theta s.ostate g).2,
-        grad := ops.zero, epoch := s.epoch + 1, scaler := s.scaler } := by
+        grad := ops.zero, epoch := s.epoch + 1, scaler := ops.supd s.scaler } := by
   intro g
   rw [iter_step ops lrAt cfg s it b (by rw [hk]; exact Nat.mod_one _)]
   simp [received, accum, hk, g]
 
 /-- **The LR schedule advances exactly once per iteration** — in every iteration, step or not; in an
 uninterrupted run (`epoch = 0` at iteration 0) iteration `i` therefore uses `lrAt i`. -/
-theorem lr_advances_once_per_iteration (ops : Ops P O G B L) (lrAt : Nat → L) (cfg : Cfg) (batch : Nat → B)
+theorem lr_advances_once_per_iteration (ops : Ops P O G B L Sc) (lrAt : Nat → L) (cfg : Cfg) (batch : Nat → B)
     (s : St P O G Sc) (it : Nat) (b : B) (a n : Nat) :
     (iter ops lrAt cfg s it b).epoch = s.epoch + 1 ∧
     (runRange ops lrAt cfg batch s a n).epoch = s.epoch + n :=
@@ -79,17 +79,17 @@ have consumed so far (`delivered`: the undivided accumulator at each step, i.e. 
 what is still pending in `.grad` equals what was there initially plus the gradient of every `backward`
 so far (`seen`), each exactly once. -/
 theorem no_gradient_dropped_or_doubled [AddCommMonoid G]
-    (grad : P → B → G) (divk : Nat → G → G) (clip : G → G) (opt : L → P → O → G → P × O)
+    (grad : P → B → G) (divk : Nat → G → G) (clip : G → G) (opt : L → P → O → G → P × O) (supd : Sc → Sc)
     (lrAt : Nat → L) (cfg : Cfg) (batch : Nat → B) (s : St P O G Sc) (a n : Nat) :
-    (delivered (addOps grad divk clip opt) lrAt cfg batch s a n).sum
-        + (runRange (addOps grad divk clip opt) lrAt cfg batch s a n).grad
-      = s.grad + (seen (addOps grad divk clip opt) lrAt cfg batch s a n).sum := by
+    (delivered (addOps grad divk clip opt supd : Ops P O G B L Sc) lrAt cfg batch s a n).sum
+        + (runRange (addOps grad divk clip opt supd : Ops P O G B L Sc) lrAt cfg batch s a n).grad
+      = s.grad + (seen (addOps grad divk clip opt supd : Ops P O G B L Sc) lrAt cfg batch s a n).sum := by
   induction n with
   | zero => simp [delivered, seen, runRange_zero]
   | succ n ih =>
-    have e1 : ∀ x y : G, (addOps grad divk clip opt : Ops P O G B L).add x y = x + y := fun _ _ => rfl
-    have e2 : (addOps grad divk clip opt : Ops P O G B L).zero = 0 := rfl
-    have e3 : (addOps grad divk clip opt : Ops P O G B L).grad = grad := rfl
+    have e1 : ∀ x y : G, (addOps grad divk clip opt supd : Ops P O G B L Sc).add x y = x + y := fun _ _ => rfl
+    have e2 : (addOps grad divk clip opt supd : Ops P O G B L Sc).zero = 0 := rfl
+    have e3 : (addOps grad divk clip opt supd : Ops P O G B L Sc).grad = grad := rfl
     by_cases h : (a + n + 1) % cfg.k = 0
     · rw [runRange_succ, iter_step _ _ _ _ _ _ h]
       simp only [delivered, seen, h, beq_self_eq_true, if_true, List.sum_cons, accum, e1, e2, e3, add_zero]
@@ -112,16 +112,16 @@ theorem no_gradient_dropped_or_doubled [AddCommMonoid G]
 /-- for iteration counts that are multiples of `k` (from an empty accumulator at a window boundary)
 nothing is pending: the steps consumed exactly the sum of all batch gradients -/
 theorem no_gradient_dropped_or_doubled_whole_windows [AddCommMonoid G]
-    (grad : P → B → G) (divk : Nat → G → G) (clip : G → G) (opt : L → P → O → G → P × O)
+    (grad : P → B → G) (divk : Nat → G → G) (clip : G → G) (opt : L → P → O → G → P × O) (supd : Sc → Sc)
     (lrAt : Nat → L) (cfg : Cfg) (batch : Nat → B) (s : St P O G Sc) (a m : Nat)
     (h0 : a % cfg.k = 0) (hg : s.grad = 0) :
-    (delivered (addOps grad divk clip opt) lrAt cfg batch s a (cfg.k * m)).sum
-      = (seen (addOps grad divk clip opt) lrAt cfg batch s a (cfg.k * m)).sum := by
-  have h := no_gradient_dropped_or_doubled grad divk clip opt lrAt cfg batch s a (cfg.k * m)
+    (delivered (addOps grad divk clip opt supd : Ops P O G B L Sc) lrAt cfg batch s a (cfg.k * m)).sum
+      = (seen (addOps grad divk clip opt supd : Ops P O G B L Sc) lrAt cfg batch s a (cfg.k * m)).sum := by
+  have h := no_gradient_dropped_or_doubled grad divk clip opt supd lrAt cfg batch s a (cfg.k * m)
   rw [hg, zero_add] at h
   by_cases hm : cfg.k * m = 0
   · rw [hm]; simp [delivered, seen]
-  · have hz := runRange_grad_zero (addOps grad divk clip opt) lrAt cfg batch s a (cfg.k * m)
+  · have hz := runRange_grad_zero (addOps grad divk clip opt supd : Ops P O G B L Sc) lrAt cfg batch s a (cfg.k * m)
       (by rw [Nat.add_mod, h0, Nat.mul_mod_right]; simp) (by omega)
     rw [hz] at h
     simpa [addOps] using h
@@ -129,7 +129,7 @@ theorem no_gradient_dropped_or_doubled_whole_windows [AddCommMonoid G]
 /-- **The whole run is a sequence of mean steps**: `m` windows from a window boundary with an empty
 accumulator = `m` applications of the one-window step; window `w` uses exactly the batches
 `it0 + k·w … it0 + k·w + k − 1`. -/
-theorem run_is_sequence_of_window_steps (ops : Ops P O G B L) (lrAt : Nat → L) (cfg : Cfg) (batch : Nat → B)
+theorem run_is_sequence_of_window_steps (ops : Ops P O G B L Sc) (lrAt : Nat → L) (cfg : Cfg) (batch : Nat → B)
     (s : St P O G Sc) (it0 m : Nat) (hk : 0 < cfg.k) (h0 : it0 % cfg.k = 0) :
     runRange ops lrAt cfg batch s it0 (cfg.k * m) =
       (List.range m).foldl (fun s w =>
@@ -148,7 +148,7 @@ theorem run_is_sequence_of_window_steps (ops : Ops P O G B L) (lrAt : Nat → L)
 but not `.grad`.  Resuming at `start` with `start % k = r`, `0 < r`: the first optimiser step comes
 after `k − r` iterations and receives `div_(k)` of the sum of only these `k − r` batches — the `r`
 batches of the window processed before the checkpoint are lost, the divisor stays `k`. -/
-theorem resume_mid_window_first_step (ops : Ops P O G B L) (lrAt : Nat → L) (cfg : Cfg) (batch : Nat → B)
+theorem resume_mid_window_first_step (ops : Ops P O G B L Sc) (lrAt : Nat → L) (cfg : Cfg) (batch : Nat → B)
     (c : Snap P O Sc) (start r : Nat) (hr : start % cfg.k = r) (hrk : r < cfg.k) :
     runRange ops lrAt cfg batch (restore ops.zero c) start (cfg.k - r) =
       stepWith ops lrAt cfg (restore ops.zero c)
@@ -168,7 +168,7 @@ theorem resume_mid_window_violates :
 
 /-- **partial**: resuming at a window boundary (`start % k = 0`, always the case for `k = 1`)
 reproduces the uninterrupted run -/
-theorem resume_window_boundary_partial (ops : Ops P O G B L) (lrAt : Nat → L) (cfg : Cfg) (batch : Nat → B)
+theorem resume_window_boundary_partial (ops : Ops P O G B L Sc) (lrAt : Nat → L) (cfg : Cfg) (batch : Nat → B)
     (init : St P O G Sc) (t n : Nat) (hb : (t + 1) % cfg.k = 0) :
     runRange ops lrAt cfg batch (restore ops.zero (snapshot (runRange ops lrAt cfg batch init 0 (t + 1)))) (t + 1) n
       = runRange ops lrAt cfg batch init 0 (t + 1 + n) := by
@@ -189,42 +189,57 @@ theorem zero_grad_pinned_violates :
 
 /-! ## additional models (`self.models`), trailing iterations, OOM recovery -/
 
-/-- **What the optimiser receives when there are additional models** (e.g. `sensitivity_model`, whose parameters
-`direct/train.py` puts into the same optimiser): `training_loop` divides only `self.model.parameters()` by
-`gradient_steps`, so the main group gets the mean and the additional group the **sum** of the `k` batch gradients. -/
-theorem additional_models_receive_sum {H : Type} [AddCommGroup G] [Module ℚ G] [AddCommGroup H] [Module ℚ H]
-    (grad : P → B → G × H) (clip : G × H → G × H) (opt : L → P → O → G × H → P × O)
+/-- **Additional models** (`self.models`, e.g. `sensitivity_model`, whose parameters `direct/train.py` puts into the
+same optimiser): the loop divides (and clips) the gradients of `self.model` *and* of every additional model
+(`Bridge/C16.lean : div_scope_eq`), i.e. the gradient space is the product `G × H` and `accumulated_step_is_mean` applies
+to it — both groups receive the mean. -/
+theorem additional_models_receive_mean {H : Type} [AddCommGroup G] [Module ℚ G] [AddCommGroup H] [Module ℚ H]
+    (grad : P → B → G × H) (clip : G × H → G × H) (opt : L → P → O → G × H → P × O) (supd : Sc → Sc)
+    (lrAt : Nat → L) (cfg : Cfg) (batch : Nat → B) (s : St P O (G × H) Sc) (it0 : Nat)
+    (hk : 0 < cfg.k) (h0 : it0 % cfg.k = 0) (hg : s.grad = 0) :
+    let tot : G × H := ∑ j ∈ Finset.range cfg.k, grad s.theta (batch (it0 + j))
+    let g0 : G × H := (((cfg.k : ℚ))⁻¹ • tot.1, ((cfg.k : ℚ))⁻¹ • tot.2)
+    let g := if cfg.clipOn then clip g0 else g0
+    runRange (moduleOps grad clip opt supd : Ops P O (G × H) B L Sc) lrAt cfg batch s it0 cfg.k =
+      { theta := (opt (lrAt (s.epoch + cfg.k - 1)) s.theta s.ostate g).1,
+        ostate := (opt (lrAt (s.epoch + cfg.k - 1)) s.theta s.ostate g).2,
+        grad := 0, epoch := s.epoch + cfg.k, scaler := supd s.scaler } :=
+  accumulated_step_is_mean grad clip opt supd lrAt cfg batch s it0 hk h0 hg
+
+/-- the pinned tree divided only `self.model.parameters()`: the additional group received the **sum** -/
+theorem additional_models_pinned_receive_sum {H : Type} [AddCommGroup G] [Module ℚ G] [AddCommGroup H] [Module ℚ H]
+    (grad : P → B → G × H) (clip : G × H → G × H) (opt : L → P → O → G × H → P × O) (supd : Sc → Sc)
     (lrAt : Nat → L) (cfg : Cfg) (batch : Nat → B) (s : St P O (G × H) Sc) (it0 : Nat)
     (hk : 1 < cfg.k) (h0 : it0 % cfg.k = 0) (hg : s.grad = 0) :
     let tot : G × H := ∑ j ∈ Finset.range cfg.k, grad s.theta (batch (it0 + j))
     let g0 : G × H := (((cfg.k : ℚ))⁻¹ • tot.1, tot.2)
     let g := if cfg.clipOn then clip g0 else g0
-    runRange (moduleOps2 grad clip opt) lrAt cfg batch s it0 cfg.k =
+    runRange (moduleOps2Pinned grad clip opt supd : Ops P O (G × H) B L Sc) lrAt cfg batch s it0 cfg.k =
       { theta := (opt (lrAt (s.epoch + cfg.k - 1)) s.theta s.ostate g).1,
         ostate := (opt (lrAt (s.epoch + cfg.k - 1)) s.theta s.ostate g).2,
-        grad := 0, epoch := s.epoch + cfg.k, scaler := s.scaler } := by
+        grad := 0, epoch := s.epoch + cfg.k, scaler := supd s.scaler } := by
   intro tot g0 g
-  rw [accumulated_step (moduleOps2 grad clip opt) lrAt cfg batch s it0 (by omega) h0,
-    windowSum_eq_sum (moduleOps2 grad clip opt) rfl, hg, zero_add]
-  have hr : received (moduleOps2 grad clip opt) cfg
-      (∑ j ∈ Finset.range cfg.k, (moduleOps2 grad clip opt).grad s.theta (batch (it0 + j))) = g := by
-    simp [received, hk, moduleOps2, g, g0, tot]
+  rw [accumulated_step (moduleOps2Pinned grad clip opt supd : Ops P O (G × H) B L Sc) lrAt cfg batch s it0 (by omega) h0,
+    windowSum_eq_sum (moduleOps2Pinned grad clip opt supd : Ops P O (G × H) B L Sc) rfl, hg, zero_add]
+  have hr : received (moduleOps2Pinned grad clip opt supd : Ops P O (G × H) B L Sc) cfg
+      (∑ j ∈ Finset.range cfg.k, (moduleOps2Pinned grad clip opt supd : Ops P O (G × H) B L Sc).grad s.theta (batch (it0 + j))) = g := by
+    simp [received, hk, moduleOps2Pinned, g, g0, tot]
   simp only [stepWith, hr]
   rfl
 
-/-- the property as stated fails for the additional group: `k = 2`, gradients 2 then 4 for both groups, lr 1:
-main parameter `−3` (mean), additional parameter `−6` (sum) -/
-theorem additional_models_violates :
+/-- regression witness: `k = 2`, gradients 2 then 4 for both groups, lr 1: main parameter `−3` (mean), additional
+parameter `−6` (sum) on the pinned tree -/
+theorem additional_models_pinned_violates :
     let cfg : Cfg := { k := 2 }
     let batch : Nat → Int := fun i => 2 * (i + 1)
     let init : St (Int × Int) Unit (Int × Int) Unit := ⟨(0, 0), (), (0, 0), 0, ()⟩
-    (runRange Toy.intOps2 (fun _ => (1 : Int)) cfg batch init 0 2).theta = (-3, -6) := by
+    (runRange Toy.intOps2Pinned (fun _ => (1 : Int)) cfg batch init 0 2).theta = (-3, -6) := by
   decide
 
 /-- **Iterations after the last complete window are never applied**: from a boundary with an empty accumulator,
 `k·m + r` iterations (`r < k`) leave the parameters, optimiser state of the `k·m`-iteration run; the last `r` batch
 gradients are pending in `.grad` (and are lost when training ends there), the schedule has advanced `r` more times. -/
-theorem trailing_iterations_pending (ops : Ops P O G B L) (lrAt : Nat → L) (cfg : Cfg) (batch : Nat → B)
+theorem trailing_iterations_pending (ops : Ops P O G B L Sc) (lrAt : Nat → L) (cfg : Cfg) (batch : Nat → B)
     (s : St P O G Sc) (it0 m r : Nat) (h0 : it0 % cfg.k = 0) (hr : r < cfg.k) (hg : s.grad = ops.zero) :
     let s' := runRange ops lrAt cfg batch s it0 (cfg.k * m)
     runRange ops lrAt cfg batch s it0 (cfg.k * m + r) =
@@ -240,13 +255,13 @@ theorem trailing_iterations_pending (ops : Ops P O G B L) (lrAt : Nat → L) (cf
 
 /-- **OOM recovery** (`zero_grad(); continue`): the skipped iteration changes neither parameters nor optimiser nor
 `last_epoch`, and empties the accumulator -/
-theorem oom_skip_state (ops : Ops P O G B L) (s : St P O G Sc) :
+theorem oom_skip_state (ops : Ops P O G B L Sc) (s : St P O G Sc) :
     (oomSkip ops s).theta = s.theta ∧ (oomSkip ops s).ostate = s.ostate ∧ (oomSkip ops s).epoch = s.epoch ∧
     (oomSkip ops s).grad = ops.zero := ⟨rfl, rfl, rfl, rfl⟩
 
 /-- … so the schedule lags: after `n` iterations of which `c` were skipped, `last_epoch = n − c` (the learning rate of
 iteration `i` is `lrAt (i − skips before i)`, not `lrAt i`) -/
-theorem oom_skip_schedule_lags (ops : Ops P O G B L) (lrAt : Nat → L) (cfg : Cfg) (batch : Nat → B)
+theorem oom_skip_schedule_lags (ops : Ops P O G B L Sc) (lrAt : Nat → L) (cfg : Cfg) (batch : Nat → B)
     (oom : Nat → Bool) (s : St P O G Sc) (a n : Nat) :
     (runRangeO ops lrAt cfg batch oom s a n).epoch + oomCount oom a n = s.epoch + n :=
   runRangeO_epoch ops lrAt cfg batch oom s a n
@@ -254,7 +269,7 @@ theorem oom_skip_schedule_lags (ops : Ops P O G B L) (lrAt : Nat → L) (cfg : C
 /-- … and a skip inside a window loses the window's earlier batches: one OOM at iteration `it0 + j` of the window
 starting at the boundary `it0` (`j + 1 < k`): the step at the end of the window is taken on `div_(k)` of the sum of
 only the `k − j − 1` batches *after* the skip, at learning rate `lrAt (epoch + k − 2)` -/
-theorem oom_skip_mid_window (ops : Ops P O G B L) (lrAt : Nat → L) (cfg : Cfg) (batch : Nat → B)
+theorem oom_skip_mid_window (ops : Ops P O G B L Sc) (lrAt : Nat → L) (cfg : Cfg) (batch : Nat → B)
     (s : St P O G Sc) (it0 j : Nat) (h0 : it0 % cfg.k = 0) (hj : j + 1 < cfg.k) :
     let oom : Nat → Bool := fun i => i == it0 + j
     let s1 := oomSkip ops (runRange ops lrAt cfg batch s it0 j)
